@@ -53,6 +53,7 @@ type Frame struct {
 	inst    string
 	ghostIn map[string]*Val // named ghost values for contract evaluation
 
+	loopEntryVals map[*Loop][]*Val
 	rootLocs     []assignLoc
 	rootLocsAll  bool
 	rootLocsDone bool
@@ -961,6 +962,10 @@ func (fr *Frame) execLoopCut(l *Loop, in []*Edge) map[*ssa.BasicBlock][]*Edge {
 		}
 		entryPhi[k] = cur
 	}
+	if fr.loopEntryVals == nil {
+		fr.loopEntryVals = map[*Loop][]*Val{}
+	}
+	fr.loopEntryVals[l] = entryPhi
 	var lc *LoopContract
 	if c := fr.vc.w.contracts[shortFuncName(fr.fn.String())]; c != nil {
 		lc = c.Loops[l.ord]
@@ -1261,6 +1266,10 @@ func (fr *Frame) loopScope(l *Loop, phis []*ssa.Phi, phiVals []*Val) map[string]
 	for i, phi := range phis {
 		if phi.Comment != "" && i < len(phiVals) && phiVals[i] != nil {
 			scope[phi.Comment] = phiVals[i]
+		}
+		// entry_<name>: the value the variable had when the loop was entered
+		if ev := fr.loopEntryVals[l]; phi.Comment != "" && i < len(ev) && ev[i] != nil {
+			scope["entry_"+phi.Comment] = ev[i]
 		}
 	}
 	return scope
